@@ -64,6 +64,11 @@ func TestMain(m *testing.M) {
 			"(unparsable, incomplete, one bit of a genuine token / opaque flipped, a signature over another challenge), virtual sleeps of 1 s / past the challenge lifetime / around TokenTTL. The label "+
 			"reuse:X->Y counts what a re-used value had handled just before each request (X, Y in challenge, answer-accepted, token-accepted, parse-error, refused, refused:invalid-HMAC / "+
 			"challenge-expired / token-expired followed by the new challenge). A re-used value that refuses an honest request is not judged (label reused-engine:honest-session-refused-*, 0 on a correct tree). "+
+			"RESET FORGOTTEN (reuse_test.go, engine handshake-reset-forgotten): in TestServerReuse worker 0 (1/3 of the cases) and any further worker (1/4) is ONE re-used value whose pool forgets Reset() before "+
+			"every use, before a drawn half of the uses, or before a drawn quarter (16-bit mask over the use count); PeerID() is asked after every Run() that returned nil. Such a value is, by the contract of Reset(), still at the same "+
+			"request: an ID it reports must be proven (same provenance rules, evaluated at the instant and for the Host of the current request) by what it was given since its last Reset() - label "+
+			"act:*:accepted-by-*+given-before-the-forgotten-Reset counts acceptances that needed an earlier request's values - and a Run() that only issued a challenge (SetHeader wrote WWW-Authenticate) must report no peer. "+
+			"The label reset-forgotten:X->Y counts what the un-reset value had handled before (X) and what the request it then handled came to (Y; no-new-challenge = the value is still at the refused request). "+
 			"ORACLE (provenance, applied to every request that reaches Next, honest ones included): "+
 			"some value of the header decodes to exactly a token this server issued to the reported peer and not older than TokenTTL, or to "+
 			"exactly a challenge opaque this server minted not more than 5 min ago together with a signature that verifies under the reported "+
@@ -86,6 +91,11 @@ func TestMain(m *testing.M) {
 			"values the signature was really made for. The oracle's tables are filled from the final header on the wire. A "+
 			"returned server ID must own a signature sent in that call over (a challenge the client sent in that call, the client's key, the "+
 			"hostname), or be the ID proven when the cached token was obtained. "+
+			"CLIENT STATE MACHINE (clientmachine_test.go, TestClientMachine): handshake.PeerIDAuthHandshakeClient (hook export_verif.go, alias VerifHandshakeClient) is driven directly through SetInitiateChallenge / ParseHeader / Run / AddHeader "+
+			"(client- and server-initiated, all four key types for client, V and A, two hostnames) for 1-4 rounds against the harness server, which per round (one behaviour for the whole handshake in 3/4 of the rounds, a drawn one otherwise) states V's key, A's key or no key and sends a signature by V "+
+			"as the spec says, by A with its own key, 64 zero bytes, none (a refused client-initiated flow), a genuine signature of V for another context (other challenge, other hostname, other client key, empty challenge, the challenge of an earlier handshake), V's signature with one bit flipped, or the client's own signature reflected; in the honest header for the request, "+
+			"always as WWW-Authenticate, always as Authentication-Info (key included), or everything in both headers; after an error the caller stops or goes on regardless (1/2). PeerID() is asked at EVERY point: after SetInitiateChallenge, after every ParseHeader (nil or error) and after every Run (nil or error). ORACLE per probe: an error / empty ID, or the ID of a key under which some sig value "+
+			"given to this client so far verifies over (a challenge-server this value sent so far, the client's key, its Hostname). Labels probe:<point>:key-stated-nothing-proven:no-id count probes made while a header had stated a public key and no valid signature of a stated key had arrived (NON-TRIVIAL = at least one such probe); asked-after-rejected-answer-nothing-proven = such a probe after Run() returned an error. "+
 			"TestClientOrigins walks the origin dimension of the client: ONE real ClientPeerIDAuth (all four key types, TokenTTL unlimited / 1 min / 1 h) makes "+
 			"2-6 calls, 0 s / 1 s / 30 s / TokenTTL-1 s / TokenTTL+1 s apart, to 2-4 ORIGINS whose Host strings are distinct spellings out of one family "+
 			"(a DNS name, localhost, an IPv4 literal, an IPv6 literal: the same name with another port, without port, in other letter case, with a trailing dot; "+
@@ -111,7 +121,7 @@ func TestMain(m *testing.M) {
 		"HMAC pads keys shorter than its block with zero bytes, so keys that differ only by trailing zero bytes are ONE secret by the definition of HMAC-SHA256 (named in the property's anchors); generated keys contain no zero byte, which makes 'any differing byte or length' and 'a different secret' the same thing; an empty HmacKey is never generated (an operator error, not a secret)",
 		"syntax: for unquoted values, single quotes, blanks around '=' or inside the quotes, bytes before the opening quote, a trailing tab and a backslash before the closing quote, acceptance and refusal are both allowed (only provenance is judged); bytes after a closing quote within the token, unbalanced, doubled and inner double quotes alter the value (spec grammar key=\"value\": the value is another string, or the token is no parameter), so such a token proves nothing; re-encodings that decode to the same bytes (CR / LF inside base64, alphabet, padding) are not alterations",
 		"the peer ID of a key is the one the libp2p peer-ID spec derives from the canonical encoding of the key material; x509.MarshalPKIXPublicKey (RSA, ECDSA), the raw Ed25519 bytes and the compressed Secp256k1 point, taken from the standard-library key behind the libp2p key (crypto.PubKeyToStdKey), are trusted to be that material (the enumeration checks that they agree with the library on keys that never were on the wire)",
-		"the direct engines reproduce around the state machine what ServeHTTP does (host checks, 400 / 401 mapping, new challenge after invalid HMAC / expired state recognised by the error text); Hostname is set per request as ServeHTTP does; Reset() before every request is the documented way of re-use - a value re-used WITHOUT Reset is not exercised",
+		"the direct engines reproduce around the state machine what ServeHTTP does (host checks, 400 / 401 mapping, new challenge after invalid HMAC / expired state recognised by the error text); Hostname is set per request as ServeHTTP does; Reset() before every request is the documented way of re-use; a value re-used WITHOUT Reset() (engine handshake-reset-forgotten) keeps, by that contract, everything it parsed since the last Reset(), so for it 'the request carries' means 'the value was given since its last Reset()' and the quoting rule is not applied to what earlier requests gave it; such a value also keeps the FIELDS of the state it verified before (opaqueState.Unmarshal decodes JSON into the struct it holds, absent fields keep their values: after an expired token of P, a fresh challenge opaque shown as bearer is taken for a live token of P), so when the proof needs earlier values and does not hold at the current instant, instants are not judged (label *+instants-not-judged): only that the reported peer comes from state this server minted for it, or from its signature, given since the last Reset(); PeerID() is asked only after a Run() that returned nil (after a Run() error the accessor's answer has no meaning in the API: a refused expired token leaves its peer in place)",
 		"a panic of the handler reports no identity and is counted (label server-panic), not judged by this property",
 		"client side, 'the hostname' is the exact Host string of the request: two Host strings that differ only in port, letter case or a trailing dot are two origins, and a proof (or the token obtained with it) for one says nothing about the other; that the client must not send a bearer token to an origin that did not hand it out is asserted as the wire-level form of this (the token stands for the earlier proof); the client-side TokenTTL itself is not asserted",
 	)
